@@ -278,7 +278,8 @@ def run(ctx):
     ctx.ob(R4, dec.qual, f"iterates `{astq.text(loops[0].iter) if loops else ''}`", ok, "" if ok else "codings are undone in the order they were applied: gzip-then-deflate bodies come out as garbage")
     if loops:
         body = loops[0].body
-        ok = len(body) == 1 and isinstance(body[0], ast.Assign) and astq.text(body[0]) == "data = d.decompress(data)"
+        lv = astq.text(loops[0].target)
+        ok = len(body) == 1 and isinstance(body[0], ast.Assign) and astq.text(body[0]) == f"data = {lv}.decompress(data)"
         ctx.ob(R4, dec.qual, "each decoder consumes the previous decoder's output", ok)
     ini = m.method(md, "__init__")
     ok = "modes.split(',')" in astq.text(ini.node).replace('"', "'") and "_get_decoder(m.strip())" in astq.text(ini.node)
